@@ -56,6 +56,7 @@ def context(tier, seed):
 
 
 def units(ctx):
+    yield ("long", 0)
     for i, _ in enumerate(plans(ctx["B"])):
         for fam in ("one", "two", "key", "three"):
             if fam == "three" and i % 5:
@@ -77,6 +78,21 @@ def alphabet(plan, p, ch=0):
 
 def gen_cases(unit, ctx):
     fam, i = unit
+    if fam == "long":
+        # scale: ten bars with several signature changes, three tracks of dozens of notes, keys changing along the way
+        p = ctx["p"]
+        for plan in (["44"] * 10, ["34", "34", "68", "68", "44", "58", "716", "22", "24", "34"]):
+            st, _ = grid(plan)
+            end = st[-1]
+            t0 = [[o, 12 if (o // 12) % 2 else 6, p + (o // 12) % 5, 0, 64] for o in range(0, end, 12)]
+            t1 = [[o, 36 if (o // 24) % 3 == 0 else 24, p + 20 - (o // 24) % 5, 1, 50] for o in range(0, end - 36, 24)]
+            t2 = [[o, 6, p - 10, 2, 40] for o in range(6, end // 2, 96)]
+            keys = [None, "G", None, "D", None, None, "F#", None, None, "G"]
+            for q in (True, False):
+                for meta in (0, 2):
+                    yield {"plan": plan, "keys": keys, "meta": meta, "q": q,
+                           "tracks": [{"notes": t0, "cap": end}, {"notes": t1, "cap": None}, {"notes": t2, "cap": None}]}
+        return
     plan = list(plans(ctx["B"]))[i]
     p = ctx["p"]
     st, sigs = grid(plan)
